@@ -3,7 +3,10 @@
 Correspondence: the real `_calc_tap_from_dataframe` (2W frame and the 3W dict of `_trafo_df_from_trafo3w`) and
 `_get_vk_values_from_table` (2W, 3W) of /repo are called on generated nets whose transformers share / do not share
 characteristic ids at random tap positions; their outputs (vn_hv', vn_lv', shift, vk columns) and the TAP/SHIFT
-columns of net._ppc["branch"] after a real runpp are compared with C31.Model (run_tap, run_vk).
+columns of net._ppc["branch"] after a real runpp are compared with C31.Model (run_tap, run_vk) and, for the 2W frame, with
+the model of the whole loop over both tap changers C31.ModelLoop.run_tap_loop - on the standard frame (no
+tap2_dependency_table column: the second tap changer is ordinary) and on the same frame with such a column added (the
+second pass becomes tabular, keyed by tap2_pos).
 Oracle: real runpp of the net with the shared table versus (a) the same net in which every transformer owns a
 private copy of its characteristic (fresh id) and (b) the same net with the own-row values entered directly
 (2W: Ratio tap changer with the row's ratio, shift_degree +/- the row's angle, vk/vkr of the row)."""
@@ -21,7 +24,8 @@ RULE = ("nets with 1-4 two-winding and 0-2 three-winding transformers fed from o
 ASSUMPTIONS = ["runpp is an oracle for the end-to-end part (its convergence is not proved)",
                "pandas DataFrame.merge(inner, on=[id, step]) keeps the order of the left (table) rows; dict(zip()) keeps the last value per key "
                "(both tied by the exact correspondence run)",
-               "second tap changer (tap2_* columns, 35 % of the 2W transformers): only the rational cases Ratio with tap2_step_degree 0 and Ideal by degree"]
+               "second tap changer (tap2_* columns, 35 % of the 2W transformers): only the rational cases Ratio with tap2_step_degree 0 and Ideal by degree "
+               "are executed (C31.ModelLoop.ord_rat); the theorems about the loop hold for any ordinary rule"]
 TRUSTED = ["construction of the 'private characteristic' and 'explicit values' twin nets in harness/props/c31.py"]
 # The defect "lookup keyed by id only" (C31-lookup-keyed-by-id-only) was repaired in /repo (fix: key the lookup by (id, step));
 # every violation is therefore unclassified ("spec").  G31 (the guard of the old behaviour) is only kept as a histogram key:
@@ -195,16 +199,24 @@ def model_terms(desc):
             rows3.append(trow_term(t["dep"], t["id"], t["pos"] if on else None, side, t["star"], 110.0, vnl, sh))
     v2 = [vrow_term(t["dep"], t["id"], t["pos"], [t["vk"], t["vkr"]]) for t in desc["t2"]]
     v3 = [vrow_term(t["dep"], t["id"], t["pos"], [t["vk"][0], t["vkr"][0], t["vk"][1], t["vkr"][1], t["vk"][2], t["vkr"][2]]) for t in desc["t3"]]
+    def tapx(pos, side, kind, diff, pct, deg):
+        return "{| x_pos := %s; x_side := %s; x_kind := %s; x_diff := %s; x_pct := %s; x_deg := %s |}" % (
+            cq.q(pos), {"hv": "HV", "lv": "LV"}.get(side, "NoSide"), kind, cq.q(diff), cq.q(pct), cq.q(deg))
+    # first tap changer: "Tabular" (no ordinary computation) for the dependent ones, else Ratio with tap_step_percent as built
+    k1 = [tapx(t["pos"], t["side"], "KNone" if t["dep"] else "KComplex", t["pos"] - t.get("neutral", 0),
+               t.get("step_percent", 0.0), t.get("step_degree", 0.0)) for t in desc["t2"]]
     taps2 = []
     for t in desc["t2"]:
         a2 = t.get("tap2")
         if not a2:
-            taps2.append("None")
+            taps2.append(tapx(0, None, "KNone", 0, 0, 0))      # all tap2_* columns NaN / None
         else:
-            taps2.append("(Some {| t2_side := %s; t2_ideal := %s; t2_diff := %s; t2_pct := %s; t2_deg := %s |})" % (
-                {"hv": "HV", "lv": "LV"}[a2["side"]], cq.b(a2["type"] == "Ideal"), cq.q(a2["pos"] - a2["neutral"]), cq.q(a2["pct"]), cq.q(a2["deg"])))
-    return "OL [run_tap_2 %s %s %s; run_tap true %s %s; run_vk %s %s; run_vk %s %s]" % (
-        tab2, cq.lst(rows2), cq.lst(taps2), tab3, cq.lst(rows3), tab2, cq.lst(v2), tab3, cq.lst(v3))
+            taps2.append(tapx(a2["pos"], a2["side"], "KIdeal" if a2["type"] == "Ideal" else "KComplex", a2["pos"] - a2["neutral"],
+                              a2["pct"], a2["deg"]))
+    has_pos2 = any(t.get("tap2") for t in desc["t2"])          # the tap2_* columns exist only when some transformer was created with them
+    loop = "run_tap_loop %s @DEP2@ %s %s %s %s" % (cq.b(has_pos2), tab2, cq.lst(rows2), cq.lst(k1), cq.lst(taps2))
+    return "OL [%s; run_tap true %s %s; run_vk %s %s; run_vk %s %s; %s]" % (
+        loop.replace("@DEP2@", "false"), tab3, cq.lst(rows3), tab2, cq.lst(v2), tab3, cq.lst(v3), loop.replace("@DEP2@", "true"))
 
 
 # ------------------------------------------------------------------ impl observation
@@ -238,6 +250,14 @@ def impl_observe(desc):
         a, b_, c = _calc_tap_from_dataframe(net, net.trafo)
         return [[float(x), float(y), float(z)] for x, y, z in zip(a, b_, c)]
 
+    def tap2x():
+        # the same frame with a (non-standard) tap2_dependency_table column: pass "2" of the loop becomes tabular as well, keyed by
+        # (id_characteristic_table, tap2_pos) and masked by tap_dependency_table - observed on the real function only, never in the oracle nets
+        fresh()
+        net.trafo["tap2_dependency_table"] = True
+        a, b_, c = _calc_tap_from_dataframe(net, net.trafo)
+        return [[float(x), float(y), float(z)] for x, y, z in zip(a, b_, c)]
+
     def tap3():
         fresh()
         if len(net.trafo3w) == 0:
@@ -268,7 +288,8 @@ def impl_observe(desc):
         v = _get_vk_values_from_table(net.trafo3w, net.trafo_characteristic_table, "3W")
         return [[float(x[i]) for x in v] for i in range(len(net.trafo3w))]
 
-    obs = [call(tap2), call(tap3), call(vk2), call(vk3)]
+    obs = [call(tap2), call(tap3), call(vk2), call(vk3), call(tap2x)]
+    fresh()
     # ppc-level TAP/SHIFT of the real run (same quantities after _calc_nominal_ratio_from_dataframe)
     return obs, ppc_tap, conv
 
@@ -452,7 +473,8 @@ def _compare(ctx, pend, model):
     from pandapower.pypower.idx_brch import TAP, SHIFT
     for (desc, obs, ppc_tap), mod in zip(pend, model):
         ctx.corr_checked += 1
-        names = ["_calc_tap_from_dataframe(2W)", "_calc_tap_from_dataframe(3W)", "_get_vk_values_from_table(2W)", "_get_vk_values_from_table(3W)"]
+        names = ["_calc_tap_from_dataframe(2W, both passes)", "_calc_tap_from_dataframe(3W)", "_get_vk_values_from_table(2W)",
+                 "_get_vk_values_from_table(3W)", "_calc_tap_from_dataframe(2W frame with a tap2_dependency_table column)"]
         for nm, o, m in zip(names, obs, mod):
             if isinstance(o, str) and o == "skip":
                 ctx.count("tap3_skipped_zero_impedance")
@@ -486,7 +508,7 @@ def run(ctx):
     for k in range(ctx.n(130, 2000)):
         desc = gen_desc(rng, small=(k % 10 == 0))
         _one(ctx, desc, terms, pend, sample=(k < 2))
-    model = ctx.coq_eval("c31", "Base.QN C31.Model", terms, shard=45, timeout=900)
+    model = ctx.coq_eval("c31", "Base.QN C31.Model C31.ModelLoop", terms, shard=45, timeout=900)
     _compare(ctx, pend, model)
 
 
@@ -494,5 +516,5 @@ def replay(ctx, rec):
     desc = rec["case"]
     terms, pend = [], []
     _one(ctx, desc, terms, pend, sample=True)
-    model = ctx.coq_eval("c31", "Base.QN C31.Model", terms, shard=45, timeout=900)
+    model = ctx.coq_eval("c31", "Base.QN C31.Model C31.ModelLoop", terms, shard=45, timeout=900)
     _compare(ctx, pend, model)
